@@ -26,7 +26,8 @@ Theorem C14_query_result_sorted :
 Proof. exact exec_sorted. Qed.
 Print Assumptions C14_query_result_sorted.
 
-(* and the conjuncts of one build of an unsampled query mean: the filter, start and end dates inclusive
+(* and the conjuncts of one build of an unsampled query mean ([matches_spec], stated with [filter_spec], not with
+   the executable filter): the filter's 18 clauses, start and end dates inclusive
    (UTC calendar day of the departure), every n-th day counted from the start date or from the first day
    in the database *)
 Theorem C14_conditions_mean_the_query :
@@ -35,9 +36,12 @@ Theorem C14_conditions_mean_the_query :
 Proof. exact own_conds_meaning. Qed.
 Print Assumptions C14_conditions_mean_the_query.
 
-Theorem C14_filter_meaning :
-  forall f r, filter_matches f r = true ->
-  (forall m, f_mindist f = Some m -> m <= r_dist r) /\ (forall m, f_maxdist f = Some m -> r_dist r <= m)
+(* "matches the filter", specified independently of the executable filter: the 18 clauses of the property text
+   (inclusive ranges; IN-lists, an empty service/aircraft list being no condition; airport / country / continent /
+   bounding box on either end when the combined attribute is given, else on origin and on destination) ... *)
+Theorem C14_filter_spec_is_the_18_clauses :
+  forall f r, filter_spec f r <->
+  ((forall m, f_mindist f = Some m -> m <= r_dist r) /\ (forall m, f_maxdist f = Some m -> r_dist r <= m)
   /\ (forall m, f_minseat f = Some m -> m <= r_seats r) /\ (forall m, f_maxseat f = Some m -> r_seats r <= m)
   /\ (forall l, f_service f = Some l -> l <> [] -> In (r_service r) l)
   /\ (forall l, f_actype f = Some l -> l <> [] -> In (r_actype r) l)
@@ -50,11 +54,17 @@ Theorem C14_filter_meaning :
   /\ (forall l, f_cont f = Some l -> In (r_ocont r) l \/ In (r_dcont r) l)
   /\ (forall l, f_cont f = None -> f_ocont f = Some l -> In (r_ocont r) l)
   /\ (forall l, f_cont f = None -> f_dcont f = Some l -> In (r_dcont r) l)
-  /\ (forall b, f_bb f = Some b -> in_box b (r_olat r) (r_olon r) = true \/ in_box b (r_dlat r) (r_dlon r) = true)
-  /\ (forall b, f_bb f = None -> f_obb f = Some b -> in_box b (r_olat r) (r_olon r) = true)
-  /\ (forall b, f_bb f = None -> f_dbb f = Some b -> in_box b (r_dlat r) (r_dlon r) = true).
-Proof. exact filter_matches_meaning. Qed.
-Print Assumptions C14_filter_meaning.
+  /\ (forall b, f_bb f = Some b -> box_holds b (r_olat r) (r_olon r) \/ box_holds b (r_dlat r) (r_dlon r))
+  /\ (forall b, f_bb f = None -> f_obb f = Some b -> box_holds b (r_olat r) (r_olon r))
+  /\ (forall b, f_bb f = None -> f_dbb f = Some b -> box_holds b (r_dlat r) (r_dlon r))).
+Proof. exact filter_spec_unfold. Qed.
+Print Assumptions C14_filter_spec_is_the_18_clauses.
+
+(* ... and the executable filter of the model decides exactly that (both directions) *)
+Theorem C14_filter_matches_iff_spec :
+  forall f r, filter_matches f r = true <-> filter_spec f r.
+Proof. exact filter_matches_iff_spec. Qed.
+Print Assumptions C14_filter_matches_iff_spec.
 
 (* with a limit: only matching rows, and never more than the limit *)
 Theorem C14_limited_query_sound :
@@ -108,7 +118,26 @@ Theorem C14_route_key_direction_independent : forall a b, od_key a b = od_key b 
 Proof. exact od_key_sym. Qed.
 Print Assumptions C14_route_key_direction_independent.
 
-(* sampling returns a subset of the unsampled answer *)
+(* connected to the stored key: on well-formed rows (r_od = od_key origin destination — what the importer
+   writes, and what the harness checks on every database) an instance A->B and an instance B->A share one key,
+   are counted in one entry of the ranking, and that entry counts both *)
+Theorem C14_both_directions_tallied_together :
+  forall coin db limit cs r1 r2,
+    let rows := selected coin db cs in
+    In r1 rows -> In r2 rows -> wf_row r1 -> wf_row r2 ->
+    r_oap r1 = r_dap r2 -> r_dap r1 = r_oap r2 -> r_sid r1 <> r_sid r2 ->
+    let key := od_key (r_oap r1) (r_dap r1) in
+    r_od r1 = key /\ r_od r2 = key
+    /\ In (key, occurrences key rows) (sort_desc (tally rows))
+    /\ 2 <= occurrences key rows
+    /\ (forall c, In (key, c) (exec_frequent coin db limit cs) -> c = occurrences key rows).
+Proof. exact both_directions_tallied_together. Qed.
+Print Assumptions C14_both_directions_tallied_together.
+
+(* sampling returns a subset of the unsampled answer.
+   KNOWN GAP: only "subset" is a theorem.  "Of the expected size" is a statement about SQLite's random(); it is
+   not proved — the harness judges the size of every sampled answer (also on re-execution and together with
+   every-n-th-day selection) against a 6.5 sigma binomial band around fraction * |matches|. *)
 Theorem C14_sample_is_subset :
   forall coin db cs r, In r (selected coin db cs) -> In r (selected no_coin db cs).
 Proof. exact sample_subset. Qed.
